@@ -91,8 +91,41 @@ def evaluate(ids):
             "; ".join("%s: %s" % (p, ",".join(v)) for p, v in meta["detected_by"].items())[:900]))
 
 
+def kani_eval(sid, harness):
+    """run one bounded harness against a scratch copy of /repo with the seeded patch applied (never touches /repo)"""
+    import tempfile, re
+    d = os.path.join(VERIF, "seeded", sid)
+    os.makedirs(os.path.join(VERIF, ".work"), exist_ok=True)
+    scratch = tempfile.mkdtemp(prefix="kseed-%s-" % sid, dir=os.path.join(VERIF, ".work"))
+    try:
+        os.makedirs(os.path.join(scratch, "repo"))
+        shutil.copytree(os.path.join(REPO, "src"), os.path.join(scratch, "repo", "src"))
+        for f in ("Cargo.toml", "Cargo.lock"):
+            shutil.copy(os.path.join(REPO, f), os.path.join(scratch, "repo", f))
+        rc, out = sh("patch -p1 -s -d %s -i %s" % (os.path.join(scratch, "repo"), os.path.join(d, "patch.diff")))
+        assert rc == 0, out
+        shutil.copytree(os.path.join(VERIF, "kani"), os.path.join(scratch, "kani"), ignore=shutil.ignore_patterns("target"))
+        ct = open(os.path.join(scratch, "kani", "Cargo.toml")).read().replace('path = "/repo"', 'path = "%s"' % os.path.join(scratch, "repo"))
+        open(os.path.join(scratch, "kani", "Cargo.toml"), "w").write(ct)
+        t0 = time.time()
+        rc, out = sh("CARGO_NET_OFFLINE=true RUSTFLAGS='--cfg miri' timeout 3000 cargo kani --target-dir %s --output-format terse --exact --harness harnesses::%s 2>&1" % (
+            os.path.join(scratch, "target"), harness), cwd=os.path.join(scratch, "kani"), timeout=3600)
+        status = "failed" if "VERIFICATION:- FAILED" in out and "Failed Checks" in out else "ok" if "VERIFICATION:- SUCCESSFUL" in out else "inconclusive"
+        failed = re.findall(r"Failed Checks: ([^\n]*)", out)[:5]
+        meta = json.load(open(os.path.join(d, "meta.json")))
+        meta["kani_harness"] = harness
+        meta["kani_result_on_mutant"] = {"status": status, "failed_checks": failed, "wall_s": round(time.time() - t0, 1),
+                                         "detected": status == "failed"}
+        json.dump(meta, open(os.path.join(d, "meta.json"), "w"), indent=1)
+        print(sid, harness, status, failed[:2], round(time.time() - t0))
+    finally:
+        shutil.rmtree(scratch, ignore_errors=True)
+
+
 if __name__ == "__main__":
-    if sys.argv[1] == "confirm":
+    if sys.argv[1] == "kani":
+        kani_eval(sys.argv[2], sys.argv[3])
+    elif sys.argv[1] == "confirm":
         sys.exit(0 if confirm(sys.argv[2], sys.argv[3], sys.argv[4]) else 1)
     else:
         evaluate(sys.argv[2:])
